@@ -784,6 +784,8 @@ def check_keywords_paired_by_name(repo, rep):
 
 
 def run(repo, rep):
+    from sa import resmodel
+    resmodel.install(repo, rep)
     rep.rule('R05a', 'ERROR-KIND: Function resolution errors are raised only '
              'on the no-receiver side of a `receiver is NO_VALUE` test, '
              'Method ones on the other')
@@ -826,16 +828,17 @@ def run(repo, rep):
         'which overload runs or which error is raised for some overload '
         'family. Which overload the arithmetic of map_args and the '
         'specificity comparison pick is NOT decided.')
-    n1 = check_error_kinds(repo, rep)
+    G = resmodel.guarded
+    n1 = G(repo, rep, 'R05b', check_error_kinds, repo, rep)
     n2 = check_type_checks(repo, rep)
-    n3 = check_first_layer_wins(repo, rep)
-    check_lazy_across_layers(repo, rep)
+    n3 = G(repo, rep, 'R05d', check_first_layer_wins, repo, rep)
+    G(repo, rep, 'R05f', check_lazy_across_layers, repo, rep)
     check_keywords_paired_by_name(repo, rep)
-    check_lazy_agreement_symmetric(repo, rep)
+    G(repo, rep, 'R05f', check_lazy_agreement_symmetric, repo, rep)
     from sa.rules import c11, c12, c17
-    c11.check_r11a(repo, rep)
-    c11.check_lazy_keys(repo, rep)
-    c12.check_kind_predicate(repo, rep)
+    G(repo, rep, 'R11a', c11.check_r11a, repo, rep)
+    G(repo, rep, 'R11f', c11.check_lazy_keys, repo, rep)
+    G(repo, rep, 'R12c', c12.check_kind_predicate, repo, rep)
     rep.rule('R12f', 'see C12: clone() copies parameter definitions, so the '
              'keyword names candidates are filtered by are per context')
     c12.check_clone_copies_parameters(repo, rep)
